@@ -16,6 +16,11 @@ use std::collections::HashMap;
 pub use std::sync::atomic::Ordering;
 
 thread_local! {
+    /// set by a successful publication of a pointer (compare_exchange / store / swap), cleared by
+    /// the thread's next shim operation: a flag that is *created* right after a publication is
+    /// initialised in memory other threads can already reach, so the creation is made a
+    /// scheduling point (the plain writes of an initialisation are invisible to loom otherwise)
+    static JUST_PUBLISHED: Cell<bool> = const { Cell::new(false) };
     static TABLE: RefCell<HashMap<usize, loom::cell::UnsafeCell<()>>> = RefCell::new(HashMap::new());
     static BUCKETS: RefCell<HashMap<usize, (usize, loom::cell::UnsafeCell<()>)>> = RefCell::new(HashMap::new());
     static READ_DEPTH: Cell<u32> = const { Cell::new(0) };
@@ -34,7 +39,13 @@ fn tracking() -> bool {
 }
 
 /// Must be called at the start of every loom execution.
+/// Number of the current execution: every shim flag remembers the execution it was created in,
+/// so that an access to a flag that was never initialised in this execution (raw bucket memory,
+/// possibly still holding a flag of an earlier execution) is recognised.
+static EPOCH: std::sync::atomic::AtomicU64 = std::sync::atomic::AtomicU64::new(1);
+
 pub fn reset() {
+    EPOCH.fetch_add(1, std::sync::atomic::Ordering::Relaxed);
     TABLE.with(|t| t.borrow_mut().clear());
     BUCKETS.with(|t| t.borrow_mut().clear());
     READ_DEPTH.with(|d| d.set(0));
@@ -122,36 +133,55 @@ impl<T> UnsafeCell<T> {
 pub struct AtomicBool {
     inner: loom::sync::atomic::AtomicBool,
     shadow: std::cell::UnsafeCell<bool>,
+    epoch: u64,
 }
 unsafe impl Sync for AtomicBool {}
 unsafe impl Send for AtomicBool {}
 impl AtomicBool {
     pub fn new(v: bool) -> Self {
+        if JUST_PUBLISHED.with(|j| j.replace(false)) {
+            loom::thread::yield_now();
+        }
         AtomicBool {
             inner: loom::sync::atomic::AtomicBool::new(v),
             shadow: std::cell::UnsafeCell::new(v),
+            epoch: EPOCH.load(std::sync::atomic::Ordering::Relaxed),
+        }
+    }
+    #[inline]
+    fn live(&self) {
+        JUST_PUBLISHED.with(|j| j.set(false));
+        // read with a volatile load: the memory may be uninitialised
+        let e = unsafe { std::ptr::read_volatile(&self.epoch) };
+        if e != EPOCH.load(std::sync::atomic::Ordering::Relaxed) {
+            panic!("access to a flag that was not initialised (raw or stale bucket memory)");
         }
     }
     pub fn load(&self, o: Ordering) -> bool {
+        self.live();
         self.inner.load(o)
     }
     pub fn store(&self, v: bool, o: Ordering) {
+        self.live();
         // shadow copy after the operation: loom may switch threads at the operation, not after it
         self.inner.store(v, o);
         unsafe { *self.shadow.get() = v };
     }
     pub fn get_mut(&mut self) -> &mut bool {
+        self.live();
         self.shadow.get_mut()
     }
     // the rest of the std API, so that a change of the library that uses another operation
     // still builds under loom (threads run one at a time, so the shadow copy written right
     // after the operation follows the modification order)
     pub fn swap(&self, v: bool, o: Ordering) -> bool {
+        self.live();
         let r = self.inner.swap(v, o);
         unsafe { *self.shadow.get() = v };
         r
     }
     pub fn compare_exchange(&self, current: bool, new: bool, success: Ordering, failure: Ordering) -> Result<bool, bool> {
+        self.live();
         let r = self.inner.compare_exchange(current, new, success, failure);
         if r.is_ok() {
             unsafe { *self.shadow.get() = new };
@@ -162,11 +192,13 @@ impl AtomicBool {
         self.compare_exchange(current, new, success, failure)
     }
     pub fn fetch_or(&self, v: bool, o: Ordering) -> bool {
+        self.live();
         let r = self.inner.fetch_or(v, o);
         unsafe { *self.shadow.get() = r | v };
         r
     }
     pub fn fetch_and(&self, v: bool, o: Ordering) -> bool {
+        self.live();
         let r = self.inner.fetch_and(v, o);
         unsafe { *self.shadow.get() = r & v };
         r
@@ -190,6 +222,7 @@ impl<T> AtomicPtr<T> {
         }
     }
     pub fn load(&self, o: Ordering) -> *mut T {
+        JUST_PUBLISHED.with(|j| j.set(false));
         self.inner.load(o)
     }
     pub fn compare_exchange(
@@ -203,6 +236,7 @@ impl<T> AtomicPtr<T> {
         if r.is_ok() {
             unsafe { *self.shadow.get() = new };
         }
+        JUST_PUBLISHED.with(|j| j.set(r.is_ok()));
         r
     }
     pub fn get_mut(&mut self) -> &mut *mut T {
@@ -211,6 +245,7 @@ impl<T> AtomicPtr<T> {
     pub fn store(&self, p: *mut T, o: Ordering) {
         self.inner.store(p, o);
         unsafe { *self.shadow.get() = p };
+        JUST_PUBLISHED.with(|j| j.set(true));
     }
     pub fn swap(&self, p: *mut T, o: Ordering) -> *mut T {
         let r = self.inner.swap(p, o);
